@@ -381,6 +381,7 @@ def nan_payload_is_refused(ctx):
     from sa.rules import c01
     c01.range_test_is_nan_safe(ctx)
     c01.nan_is_never_turned_into_a_number(ctx)
+    c01.length_is_measured_on_the_value(ctx)     # a payload is valid for the described datainfo: lengths count the value itself
 
 
 @rule('C04.R2b', min_instances=3)
